@@ -72,8 +72,50 @@ fn case_b(w: u16, fl: u64, steps: usize, sup: bool) -> Result<String, (String, S
     r.map_err(|m| (format!("panic:{}", panic_site(&m)), format!("uniform image x{w:04X} flags {fl:04b} supervisor={sup}: {m}")))
 }
 
+// ---- (c) histories on one simulator: loads over loads, runs, resets (non-initial states)
+const C_SRC: [&str; 4] = [
+    // three blocks; the code reaches into the second and third one with every kind of load/store
+    ".orig x3000\nLD R1, P2\nLDR R0,R1,#0\nSTR R0,R1,#1\nLDI R2, P3\nSTI R2, P3\nLD R3, P3\nLDR R4,R3,#1\nHALT\nP2 .fill x4000\nP3 .fill x5000\n.end\n.orig x4000\n.fill x0011\n.blkw 2\n.end\n.orig x5000\n.fill x5001\n.fill x0022\n.end",
+    // one block
+    ".orig x3000\nLD R0, VAL\nST R0, VAL\nLEA R1, VAL\nLDR R2,R1,#0\nSTR R2,R1,#0\nHALT\nVAL .fill x0022\n.end",
+    // two blocks, the second one at the top of user space; subroutine call with the stack in the second block
+    ".orig x3000\nLD R6, SP\nJSR F\nLDR R0,R6,#-1\nHALT\nF ADD R6,R6,#-1\nSTR R7,R6,#0\nLDR R7,R6,#0\nADD R6,R6,#1\nRET\nSP .fill xFDFF\n.end\n.orig xFDF0\n.blkw 15\n.fill 7\n.end",
+    // reserved words only
+    ".orig x3000\n.blkw 4\n.end",
+];
+fn c_objs() -> &'static Vec<lc3_ensemble::asm::ObjectFile> {
+    static O: std::sync::OnceLock<Vec<lc3_ensemble::asm::ObjectFile>> = std::sync::OnceLock::new();
+    O.get_or_init(|| C_SRC.iter().map(|s| lc3_ensemble::asm::assemble_debug(lc3_ensemble::parse::parse_ast(s).expect("parses"), s).expect("assembles")).collect())
+}
+const C_OPS: [&str; 9] = ["load 3-block file", "load 1-block file", "load 2-block file", "load reserved-only file", "run_with_limit(40)", "step_in", "reset", "pc := x3000", "toggle strict"];
+fn c_history(mut h: u64, len: u32) -> Vec<usize> { let mut v = vec![]; for _ in 0..len { v.push((h % 9) as usize); h /= 9; } v }
+fn case_c(h: u64, len: u32, fl: u64) -> Result<String, (String, String)> {
+    let ops = c_history(h, len);
+    let names: Vec<&str> = ops.iter().map(|o| C_OPS[*o]).collect();
+    let mut at = 0usize;
+    let r = catch(std::panic::AssertUnwindSafe(|| {
+        let mut sim = Simulator::new(flags(fl, 0x0000));
+        attach(&mut sim, false);
+        let mut outs = String::new();
+        for (k, o) in ops.iter().enumerate() {
+            at = k;
+            match *o {
+                0..=3 => { let r = sim.load_obj_file(&c_objs()[*o]); outs.push(if r.is_ok() { 'l' } else { 'L' }); }
+                4 => match sim.run_with_limit(40) { Ok(()) => outs.push('r'), Err(e) => outs.push_str(&err_name(&e)) },
+                5 => match sim.step_in() { Ok(()) => outs.push('s'), Err(e) => outs.push_str(&err_name(&e)) },
+                6 => { sim.reset(); outs.push('0'); }
+                7 => { sim.pc = 0x3000; outs.push('p'); }
+                _ => { sim.flags.strict = !sim.flags.strict; outs.push('t'); }
+            }
+            let _ = sim.prefetch_pc(); let _ = sim.hit_halt();
+        }
+        outs
+    }));
+    r.map_err(|m| (format!("panic:{}", panic_site(&m)), format!("history {names:?} (flags {fl:04b}) panicked in operation {at}: {m}")))
+}
+
 pub fn run(ctx: &Ctx) -> Report {
-    let mut rep = Report::new("(a) every 16-bit word at each of 13 boundary PCs (quick: 3: x3000, xFE00, xFFFF) x 4 register presets (quick: rotated) x all 16 combinations of {strict, real traps, ignore privilege, debug frames} x {user, supervisor}, with keyboard (IE on, data queued), display, an enabled timer and internal-register mappings (1 case in 8 'noisy': timer firing at the first poll and keyboard interrupts enabled; otherwise first fire after 2-3 polls) of PC and saved SP attached; up to 3 steps, prefetch_pc() after each; (b) uniform images: all 64K words = w for every w, PC = xFFF0, 20 (thorough 60) steps across the address wrap, then run_while with an 8-step tripwire, for flag sets rotated by w (thorough: all 16). Oracle: no panic (overflow checks on); every failure is a SimErr. non-trivial = cases that end in a simulator error");
+    let mut rep = Report::new("(a) every 16-bit word at each of 13 boundary PCs (quick: 3: x3000, xFE00, xFFFF) x 4 register presets (quick: rotated) x all 16 combinations of {strict, real traps, ignore privilege, debug frames} x {user, supervisor}, with keyboard (IE on, data queued), display, an enabled timer and internal-register mappings (1 case in 8 'noisy': timer firing at the first poll and keyboard interrupts enabled; otherwise first fire after 2-3 polls) of PC and saved SP attached; up to 3 steps, prefetch_pc() after each; (b) uniform images: all 64K words = w for every w, PC = xFFF0, 20 (thorough 60) steps across the address wrap, then run_while with an 8-step tripwire, for flag sets rotated by w (thorough: all 16). (c) every history of <=4 (thorough 5) operations on one simulator over {load a 3-block / 1-block / 2-block / reserved-words-only object file, run_with_limit(40), step_in, reset, pc := x3000, toggle strict} under 4 (thorough 16) flag sets, so that loads over loads and runs after reloads are covered. Oracle: no panic (overflow checks on); every failure is a SimErr. non-trivial = cases that end in a simulator error");
     let npc = ctx.pick(3u64, 13u64);
     let nreg = ctx.pick(1u64, 4u64);
     let r = sweep(ctx, 65536 * npc * nreg * 16 * 2, 2048, |k, acc| {
@@ -98,6 +140,23 @@ pub fn run(ctx: &Ctx) -> Report {
         }
     });
     rep.absorb(r);
+    // (c)
+    let maxlen = ctx.pick(4u32, 5u32);
+    for len in 1..=maxlen {
+        let n = 9u64.pow(len);
+        let nf = ctx.pick(4u64, 16u64);
+        let r = sweep(ctx, n * nf, 16, |k, acc| {
+            let (h, f) = (k / nf, k % nf);
+            let fl = if nf == 4 { [0b0001u64, 0b0011, 0b1001, 0b0100][f as usize] } else { f };
+            acc.evals += 1; acc.transitions += len as u64; acc.traces += 1; acc.count("c_histories", 1);
+            match case_c(h, len, fl) {
+                Ok(o) => { if o.chars().any(|c| c.is_ascii_uppercase()) { acc.nontrivial += 1; } acc.outcomes.insert(fnv_str(&o) ^ 0xC); }
+                Err((sig, d)) => acc.violation(sig, format!("c:{h}:{len}:{fl}"), d),
+            }
+        });
+        rep.absorb(r);
+    }
+    rep.bound("history_length", Json::i(maxlen as u64));
     rep.bound("pcs", Json::i(npc)); rep.bound("register_presets", Json::i(nreg)); rep.bound("flag_sets", Json::i(16)); rep.bound("uniform_image_steps", Json::i(steps as u64));
     rep.require(rep.acc.outcomes.len() >= 8, "several error kinds and clean runs observed");
     rep.assume("panics are judged with overflow-checks and debug-assertions on (Cargo dev-profile semantics)");
@@ -109,6 +168,7 @@ pub fn replay(case: &str) -> Option<String> {
     let r = match *p.first()? {
         "a" => case_a(n(1)? as u16, n(2)? as usize, n(3)? as usize, n(4)?, n(5)? == 1).map(|_| ()),
         "b" => case_b(n(1)? as u16, n(2)?, n(3)? as usize, n(4)? == 1).map(|_| ()),
+        "c" => case_c(n(1)?, n(2)? as u32, n(3)?).map(|_| ()),
         _ => return None,
     };
     r.err().map(|(s, d)| format!("[{s}] {d}"))
